@@ -284,6 +284,7 @@ harnesses! {
     a11_next_n7,      unwind = 10, raw = 16, |r| check_attr_step::<7>(r, 1);
 
     // ---- C16: neutral settings vs solver-chosen settings, both real; raw = 5 + N; generics <N, P>
+    r16_transform_n5, unwind = 8, raw = 8, |r| check_ref_transform::<5>(r);
     r16_transform_n6, unwind = 9, raw = 9, |r| check_ref_transform::<6>(r);
     s16_text_finding_n4, unwind = 6, raw = 11, |r| check_step::<4, 4, 0, 0>(r, &rgc(ST_TEXT, 0, b"", 0x60), C16_FINDING_ONLY);
     d16_text_n3,     unwind = 5,  raw = 8, |r| check_cfgdiff::<3, 3>(r, &rgc(ST_TEXT, 0, b"", 0x60), 0);
